@@ -32,6 +32,18 @@ def shapes_of(vals):
             ('1-d with 0', numpy.concatenate([[0.0], arr]))]
 
 
+def both_ranges(m, name, params):
+    """(top pressure, top loading) of the range in which both directions are defined."""
+    try:
+        if m.calculates == 'loading':
+            pt = ml.p_range(name, params)
+            return pt, float(numpy.asarray(m.loading(0.9 * pt)).reshape(-1)[0])
+        nt_ = ml.n_range(name, params)
+        return float(numpy.asarray(m.pressure(0.9 * nt_)).reshape(-1)[0]), nt_
+    except Exception:
+        return 0.0, 0.0
+
+
 def work(arg):
     name, params, T = arg
     out = {'ev': 0, 'nt': 0, 'viol': [], 'noreturn': 0, 'worst': {}}
@@ -196,6 +208,79 @@ def work(arg):
             v('inverse-identity', f'{inv_name}({fwd_name}(x)) != x for {kind}: x={xa[i]:.9g} -> {ia[i]:.9g} (deviation {e:.3g})', xa, ia, extra)
         else:
             out['nt'] += 1
+    # ---- integer-typed inputs (both directions): the value, not the literal type, decides
+    p_top, n_top = both_ranges(m, name, params)
+    for fn_name, fn, top in (('loading', m.loading, p_top), ('pressure', m.pressure, n_top)):
+        ints = [k for k in (1, 2, 3, 5, 9, 20, 100) if k < 0.9 * top][:4]
+        if not ints:
+            continue
+        numeric = name in ml.NUMERIC_INVERSE and fn_name != explicit
+        refs = [core.call(fn, float(k)) for k in ints]
+        if not all(r.ok for r in refs):
+            continue
+        ref = numpy.array([float(numpy.asarray(r.value).reshape(-1)[0]) for r in refs])
+        for kind, x, sel in (('int', ints[0], [0]), ('np.int64', numpy.int64(ints[-1]), [len(ints) - 1]), ('0-d int', numpy.array(ints[0]), [0]),
+                             ('1-d int', numpy.array(ints), list(range(len(ints)))), ('1-d int32', numpy.array(ints, dtype='int32'), list(range(len(ints))))):
+            o = core.call(fn, x)
+            out['ev'] += 1
+            same_shape_float = core.call(fn, numpy.asarray(x, dtype=float) if numpy.ndim(x) else float(x))
+            if not same_shape_float.ok:
+                continue        # this container shape is not supported for floats either (judged by the shape clauses above)
+            if not o.ok:
+                if numeric and core.is_pg(o.kind):
+                    out['noreturn'] += 1
+                    continue
+                v('integer-input', f'{fn_name}({kind} {x!r}) {o.brief()} although {fn_name}({float(ints[sel[0]])}) returns', ref[sel], o.brief(),
+                  {'fn': fn_name, 'shape': kind, 'kind': o.kind})
+                continue
+            got = numpy.atleast_1d(numpy.asarray(o.value, dtype=float)).reshape(-1)
+            if got.shape != (len(sel),):
+                v('integer-input', f'{fn_name}({kind}) returned shape {numpy.shape(o.value)}', None, None, {'fn': fn_name, 'shape': kind})
+                continue
+            if name == 'Virial' and fn_name == 'loading':
+                bad = numpy.abs(got - ref[sel]).max() > 5e-4 + 1e-4 * numpy.abs(ref[sel]).max()
+            else:
+                bad = core.relerr(got, ref[sel]) > (TOL_NUM if numeric else 1e-11)
+            if bad:
+                v('integer-input', f'{fn_name}({kind} {x!r}) = {got} but the same values as floats give {ref[sel]}', ref[sel], got,
+                  {'fn': fn_name, 'shape': kind})
+            else:
+                out['nt'] += 1
+    # ---- query, change the parameters in place, query again: must equal a fresh model with the new parameters
+    key = next((k for k in ('K', 'K1', 'KH', 'C', 'e', 'n_m', 'n_m1') if k in params), list(params)[0])
+    for fn_name, xq in (('loading', 0.37 * p_top), ('pressure', 0.37 * n_top)):
+        if not xq > 0:
+            continue
+        for how in ('params[key] = v', 'params = {...}'):
+            for shape_name, xx in (('float', float(xq)), ('1-d', numpy.array([0.5 * xq, xq]))):
+                m1 = ml.mk(name, params, T)
+                first = core.call(getattr(m1, fn_name), xx)
+                new = dict(params)
+                new[key] = params[key] * 1.25
+                if how == 'params[key] = v':
+                    m1.params[key] = new[key]
+                else:
+                    m1.params = dict(new)
+                got = core.call(getattr(m1, fn_name), xx)
+                want = core.call(getattr(ml.mk(name, new, T), fn_name), xx)
+                out['ev'] += 1
+                if not want.ok or not first.ok:
+                    continue
+                numeric = name in ml.NUMERIC_INVERSE and fn_name != explicit
+                if not got.ok:
+                    v('stale-after-parameter-change', f'{fn_name}({shape_name}) after {how} (key {key!r}) {got.brief()} but a fresh model returns', want.value,
+                      got.brief(), {'fn': fn_name})
+                    continue
+                g1 = numpy.atleast_1d(numpy.asarray(got.value, dtype=float)).reshape(-1)
+                w1 = numpy.atleast_1d(numpy.asarray(want.value, dtype=float)).reshape(-1)
+                f1 = numpy.atleast_1d(numpy.asarray(first.value, dtype=float)).reshape(-1)
+                if g1.shape != w1.shape or core.relerr(g1, w1) > (TOL_NUM * 10 if numeric else 1e-11):
+                    stale = g1.shape == f1.shape and core.relerr(g1, f1) < 1e-12
+                    v('stale-after-parameter-change',
+                      f'{fn_name}({shape_name} {xx}) after {how} ({key}: {params[key]} -> {new[key]}) = {g1} but a fresh model with the new parameters gives {w1}'
+                      + (' (this is the value for the OLD parameters)' if stale else ''), w1, g1, {'fn': fn_name})
+                else:
+                    out['nt'] += 1
     return out
 
 
